@@ -384,10 +384,14 @@ theorem iterLoop_safe (ctx : Ctx) (root : State) (nT nB : Nat) (hT : 0 < nT) (hB
   | zero => intro _ st h; exact h
   | succ n ih =>
     intro depth st h
-    rw [iterLoop]
+    have hb : SafeS ctx root nT nB (boundaryPoll ctx depth st) := by
+      unfold SafeS; rw [boundaryPoll_tt, boundaryPoll_bestMv, boundaryPoll_panic]; exact h
+    rw [iterLoop_succ]
     split
     · exact h
-    · exact ih _ _ (iterStep_safe ctx root nT nB hT hB hhist hcs hg _ depth st h)
+    · split
+      · exact hb
+      · exact ih _ _ (iterStep_safe ctx root nT nB hT hB hhist hcs hg _ depth _ hb)
 
 /-- the search memory handed in does not hold, under the root's key, a move that is illegal in the root
 (true of a fresh memory; for a re-used memory it is the `TTInv` of C03 at the root's key — it can only fail
